@@ -219,6 +219,15 @@ def rollingSim : List Access → Mem → Nat → RollVerdict
 
 def checkRolling (l : List Access) : RollVerdict := rollingSim l [] 0
 
+/-- storage row the hardware addresses for row `r` of a box starting at `y0`, given tile 0 height `h0`, the
+    storage row `s0` of the first row of tile 0 and (if present) `s2` of the first row of tile 2 -/
+def tileSlot (y0 h0 s0 : Nat) (s2 : Option Nat) (r : Nat) : Option Nat :=
+  if r - y0 < h0 then some (s0 + (r - y0)) else s2.map fun b => b + (r - y0 - h0)
+
+/-- **Tile addressing of a rolling buffer**: every row `r` of the box `[y0, y1)` is fetched from storage row `r mod B` -/
+def checkTiles (y0 y1 B h0 s0 : Nat) (s2 : Option Nat) : Bool :=
+  (List.range (y1 - y0)).all fun i => tileSlot y0 h0 s0 s2 (y0 + i) == some ((y0 + i) % B)
+
 /-- arithmetic core of rolling-buffer safety: when the consumer stripe that starts reading at row `a`
     is issued, the producer has written rows `[0, P)`; row `r ≥ a` is still in its slot iff `r + B ≥ P`. -/
 def RollingSafe (a P B : Nat) : Prop := P ≤ a + B
